@@ -13,7 +13,7 @@ WT=/tmp/seed/confirm-$ID-$X
 rm -rf $WT; git -C /repo worktree add -q --detach $WT HEAD || exit 2
 {
 echo "== demo WITHOUT the change (py):"; /tmp/seed/run_demo.sh $WT $DST/demo.py py >/dev/null 2>&1; echo "exit=$?"
-git -C $WT apply $(pwd)/$DST/patch.diff || { echo "PATCH DOES NOT APPLY"; }
+git -C $WT apply $(pwd)/$DST/patch.diff 2>/dev/null || patch -s -p1 -d $WT -i $(pwd)/$DST/patch.diff || { echo "PATCH DOES NOT APPLY"; }
 echo "== suite WITH the change:"; /tmp/seed/run_suite.sh $WT
 echo "== demo WITH the change (py):"; /tmp/seed/run_demo.sh $WT $DST/demo.py py 2>&1 | tail -3; /tmp/seed/run_demo.sh $WT $DST/demo.py py >/dev/null 2>&1; echo "exit=$?"
 echo "== demo WITH the change (cy):"; /tmp/seed/run_demo.sh $WT $DST/demo.py cy >/dev/null 2>&1; echo "exit=$?"
